@@ -422,6 +422,13 @@ fn seen(tag: u8, v: i64) -> Got {
     }
 }
 
+/// absolute position of the first cell of a row: the (at most 3) cells of the row have u32 coordinates
+fn any_row_pos() -> (u32, u32) {
+    let pos: (u32, u32) = kani::any();
+    kani::assume(pos.1 <= u32::MAX - 3);
+    pos
+}
+
 /// SeqAccess: the record is the selected columns, in the order of `column_indexes`
 #[kani::proof]
 #[kani::unwind(5)]
@@ -434,7 +441,7 @@ fn row_seq_selects_columns() {
     let cells = [mk_cell(tag[0], v[0], &k), mk_cell(tag[1], v[1], &k), mk_cell(tag[2], v[2], &k)];
     let idx: [usize; 2] = kani::any();
     kani::assume(idx[0] < 3 && idx[1] < 3);
-    let pos: (u32, u32) = kani::any();
+    let pos = any_row_pos();
     kani::cover!(idx[0] == 2 && idx[1] == 0 && tag[2] == 1);
     let de = RowDeserializer::new(&idx, None, &cells, pos);
     match Row3::<Got>::deserialize(de) {
@@ -455,7 +462,7 @@ fn row_seq_size_hint() {
     let v: [i64; 2] = kani::any();
     let cells = [Data::Int(v[0]), Data::Int(v[1])];
     let idx = [1usize, 0];
-    let mut de = RowDeserializer::new(&idx, None, &cells, kani::any());
+    let mut de = RowDeserializer::new(&idx, None, &cells, any_row_pos());
     assert!(SeqAccess::size_hint(&de) == Some(2));
     assert!(matches!(de.next_element::<Got>(), Ok(Some(_))));
     assert!(SeqAccess::size_hint(&de) == Some(1));
@@ -582,7 +589,7 @@ fn row_map_skips_leading_empty() {
     let cells = [Data::Empty, Data::Int(x)];
     let h = hdr_ab();
     let idx = [0usize, 1];
-    let de = RowDeserializer::new(&idx, Some(&h), &cells, kani::any());
+    let de = RowDeserializer::new(&idx, Some(&h), &cells, any_row_pos());
     match de.deserialize_map(Map3V) {
         Ok(m) => {
             assert!(!m.as_seq && m.n == 1);
@@ -607,7 +614,7 @@ fn row_map_binds_by_header() {
     let idx = [0usize, 1];
     kani::cover!(tag[0] == 0 && tag[1] == 1);
     kani::cover!(tag[0] == 1 && tag[1] == 1);
-    let de = RowDeserializer::new(&idx, Some(&h), &cells, kani::any());
+    let de = RowDeserializer::new(&idx, Some(&h), &cells, any_row_pos());
     match de.deserialize_struct("R", &["a", "b"], Map3V) {
         Ok(m) => {
             assert!(!m.as_seq);
@@ -633,7 +640,7 @@ fn row_map_selected_order() {
     let cells = [Data::Int(v[0]), Data::Int(v[1])];
     let h = hdr_ab();
     let idx = [1usize, 0];
-    let de = RowDeserializer::new(&idx, Some(&h), &cells, kani::any());
+    let de = RowDeserializer::new(&idx, Some(&h), &cells, any_row_pos());
     match de.deserialize_map(Map3V) {
         Ok(m) => {
             assert!(m.n == 2);
@@ -653,9 +660,28 @@ fn row_map_error_value() {
     let cells = [Data::Int(x), Data::Error(k.clone())];
     let h = hdr_ab();
     let idx = [0usize, 1];
-    let de = RowDeserializer::new(&idx, Some(&h), &cells, kani::any());
+    let de = RowDeserializer::new(&idx, Some(&h), &cells, any_row_pos());
     match de.deserialize_map(Map3V) {
         Err(DeError::CellError { err, .. }) => assert!(kind_no(&err) == kind_no(&k)),
+        _ => assert!(false),
+    }
+}
+/// ... and the absolute position of that cell (row of the record, start column + column index)
+#[kani::proof]
+#[kani::unwind(5)]
+#[kani::stub(alloc::fmt::format, format_stub)]
+fn row_map_error_pos() {
+    let j: usize = kani::any();
+    kani::assume(j < 2);
+    let k = any_kind();
+    let cells = [mk_cell(if j == 0 { 2 } else { 0 }, kani::any(), &k), mk_cell(if j == 1 { 2 } else { 0 }, kani::any(), &k)];
+    let h = hdr_ab();
+    let idx = [0usize, 1];
+    let base = any_row_pos();
+    kani::cover!(j == 1);
+    let de = RowDeserializer::new(&idx, Some(&h), &cells, base);
+    match de.deserialize_map(Map3V) {
+        Err(DeError::CellError { pos, .. }) => assert!(pos == (base.0, base.1 + j as u32)),
         _ => assert!(false),
     }
 }
@@ -667,7 +693,7 @@ fn row_map_value_without_key() {
     let cells = [Data::Int(kani::any())];
     let h = hdr_ab();
     let idx = [0usize];
-    let pos: (u32, u32) = kani::any();
+    let pos = any_row_pos();
     let mut de = RowDeserializer::new(&idx, Some(&h), &cells, pos);
     match de.next_value::<Got>() {
         Err(DeError::UnexpectedEndOfRow { pos: p }) => assert!(p == pos),
@@ -682,7 +708,7 @@ fn row_dispatch_map_iff_headers() {
     let cells = [Data::Int(kani::any()), Data::Int(kani::any())];
     let h = hdr_ab();
     let idx = [0usize, 1];
-    let pos: (u32, u32) = kani::any();
+    let pos = any_row_pos();
     let with = |hh: bool| RowDeserializer::new(&idx, if hh { Some(&h[..]) } else { None }, &cells, pos);
     assert!(matches!(with(true).deserialize_map(Map3V), Ok(m) if !m.as_seq));
     assert!(matches!(with(true).deserialize_struct("R", &["a", "b"], Map3V), Ok(m) if !m.as_seq));
